@@ -66,7 +66,7 @@ def length_scale(shape):
 
 
 def _ball(x):
-    return ("ball", type(x).__name__, float(x.radius), np.asarray(x.centroid, float).ravel())
+    return ("ball", type(x).__name__, float(x.radius), np.array(x.centroid, float).ravel())
 
 
 def _canon_cycle(f):
@@ -154,15 +154,15 @@ def observe(shape, light=False):
             elif name == "neighbors" and facekey is not None:
                 out[name] = ("keyed-set", {facekey[i]: frozenset(facekey[int(j)] for j in nb) for i, nb in enumerate(v)})
             elif name in ("equations", "normals", "face_centroids") and facekey is not None:
-                out[name] = ("keyed", {facekey[i]: np.asarray(r, float) for i, r in enumerate(np.asarray(v, float))})
+                out[name] = ("keyed", {facekey[i]: np.array(r, float) for i, r in enumerate(np.asarray(v, float))})
             elif name == "simplices":
                 out[name] = ("count", int(len(v)))
             elif name == "gsd_shape_spec":
-                out[name] = ("spec", {k: (np.asarray(x, float) if k == "vertices" else (len(x) if k == "indices" else x)) for k, x in v.items()})
+                out[name] = ("spec", {k: (np.array(x, float) if k == "vertices" else (len(x) if k == "indices" else x)) for k, x in v.items()})
             elif isinstance(v, (tuple, list)) and len(v) and all(np.isscalar(x) for x in v):
                 out[name] = np.array([float(x) for x in v])
             elif isinstance(v, (np.ndarray, float, int, np.floating, np.integer, bool, np.bool_)):
-                out[name] = np.asarray(v, float)
+                out[name] = np.array(v, float)
             else:
                 out[name] = ("repr", repr(v)[:200])
         if light:
